@@ -181,14 +181,66 @@ def rule_idempotent(ctx):
     ctx.check(all(st == "raise" for tr, st in fp) and fp, fi.fq, "a creator that does not exist yet never holds the claim", "a phrase-only creator can get a no-op", "raises")
 
 
+def rule_detached_counterparts(ctx):
+    """R-C08-6: a detached static tree or glob pattern owns nothing, so a declaration that would conflict with it is
+    accepted; it comes back unchecked when its step is recycled and skipped.  The declaration therefore has to take
+    away the hash of the detached owner (the lost-product mechanism), so that the owner runs again and its own
+    registration reports the conflict, as in a build from scratch."""
+    def positive_detached(text, kind_pred):
+        t = re.sub(r"\s+", " ", text)
+        return re.search(r"(?<!NOT )\bnode \. detached\b", t) is not None and re.search(kind_pred, t) is not None
+
+    def reach_with_helpers(fq):
+        out, todo = [], [ctx.prog.func(fq)]
+        seen = set()
+        while todo:
+            fi = todo.pop()
+            if fi.fq in seen:
+                continue
+            seen.add(fi.fq)
+            out.append(fi)
+            for c in calls_in(fi.node):
+                if isinstance(c.func, ast.Attribute) and isinstance(c.func.value, ast.Name) and c.func.value.id == "self" and c.func.attr.startswith("_") and len(seen) < 6:
+                    try:
+                        todo.append(ctx.prog.func(f"workflow.Workflow.{c.func.attr}"))
+                    except AnalysisError:
+                        pass
+        return out
+
+    for fq, kind_pred, what in (("workflow.Workflow._declare_file", r"kind = 'st'", "a detached static tree over the declared path"),
+                                ("workflow.Workflow._raise_if_glob_match", r"\bnglob\b", "a pattern of a detached step that matches the declared product")):
+        ok = False
+        for fi in reach_with_helpers(fq):
+            if fi.fq not in (fq,) and fi.fq in ("workflow.Workflow._find_owning_static_tree", "workflow.Workflow._raise_if_forbidden_target", "workflow.Workflow.create"):
+                continue
+            has_sql = any(positive_detached(st.text, kind_pred) for st in ctx.sql.stmts_in(fi.fq))
+            has_inv = any(callee_name(c) == "after_lost_product" for c in calls_in(fi.node))
+            ok = ok or (has_sql and has_inv)
+        ctx.check(ok, fq, f"{what} has its owner invalidated", f"nothing looks for {what}: the owner is recycled and skipped later, the tree/pattern is attached again next to the conflicting declaration, and the plan that a build from scratch rejects is accepted", "detached lookup + after_lost_product", where=ctx.where_of(ctx.prog.func(fq)))
+
+
+def rule_lost_claim_is_rechecked(ctx):
+    """R-C08-5: when a new declaration takes a path from a detached owner, every plan that would declare the old owner
+    again has to run again, so that the conflict is reported in that order too."""
+    shared.check_lost_product_chain(ctx, "only the immediate creator of the old owner is invalidated: a plan two levels up is recycled and skipped, so the two conflicting declarations are both accepted when the new one arrives first")
+    for fq in ("trellis.Trellis.create", "trellis.Node.reattach"):
+        fi = ctx.prog.func(fq)
+        ctx.check(any(callee_name(c) == "after_lost_product" for c in calls_in(fi.node)), fq, "a take-over notifies the old creator", "a path is taken from its detached owner silently", "after_lost_product")
+
+
 RULES = [
     Rule("R-C08-1", "the claim is a database fact", rule_claim_is_db_fact, min_instances=5),
     Rule("R-C08-2", "every conflict relation is guarded in both directions, before the mutation", rule_guard_pairs, min_instances=20),
     Rule("R-C08-3", "declare only after the claim check", rule_declare_after_check, min_instances=9),
+    Rule("R-C08-6", "declarations that conflict with a detached tree or pattern invalidate its owner", rule_detached_counterparts, min_instances=2),
+    Rule("R-C08-5", "a claim taken from a detached owner is re-examined when the owner's plans run again", rule_lost_claim_is_rechecked, min_instances=4),
     Rule("R-C08-4", "idempotent redeclaration", rule_idempotent, min_instances=6),
 ]
 
 MUTANTS = [
+    Mutant("detached-tree-not-invalidated", "workflow.py", in_function("Workflow._declare_file", replace_once("            self._invalidate_detached_tree_creators(creator, path)\n", "")), ("R-C08-6",)),
+    Mutant("detached-pattern-not-invalidated", "workflow.py", in_function("Workflow._raise_if_glob_match", replace_once("                Step(self, i, label).after_lost_product()\n", "                pass\n")), ("R-C08-6",)),
+    Mutant("lost-product-one-level", "step.py", in_function("Step.after_lost_product", replace_once("creator.after_lost_product()", "creator.delete_hash()")), ("R-C08-5",)),
     Mutant("nonunique-index", "trellis.py", replace_once("CREATE UNIQUE INDEX IF NOT EXISTS node_kind_label ON node (kind, label);", "CREATE INDEX IF NOT EXISTS node_kind_label ON node (kind, label);"), ("R-C08-1",)),
     Mutant("no-tree-lookup", "workflow.py", in_function("Workflow._declare_file", lambda s: s.replace("        if not isinstance(creator, StaticTree):\n            static_tree = self._find_owning_static_tree(path)\n", "        if False:\n            static_tree = self._find_owning_static_tree(path)\n") if "static_tree = self._find_owning_static_tree(path)" in s else None), ("R-C08-2",)),
     Mutant("glob-check-after-recycle", "workflow.py", in_function("Workflow.define_step", lambda s: s.replace("        self._raise_if_glob_match(step_label, out_paths + vol_paths)\n", "", 1).replace("        self._raise_if_step_exists(creator, step_label)\n", "        self._raise_if_glob_match(step_label, out_paths + vol_paths)\n        self._raise_if_step_exists(creator, step_label)\n", 1) if "self._raise_if_glob_match(step_label, out_paths + vol_paths)" in s else None), ("R-C08-2",)),
